@@ -192,6 +192,54 @@ def read_from_haplotype(refseq, variants, hap_alleles, a, b):
     return "".join(seq), cig
 
 
+def _reflen(cig):
+    return sum(l for op, l in cig if op in (0, 2, 3, 7, 8))
+
+
+def decorate(rng, refseq, start, seq, cig, p):
+    """G-cigar: soft/hard clips, =/X instead of M. The aligned part is unchanged."""
+    cig = list(cig)
+    if rng.random() < 0.5:
+        # =/X instead of M
+        out = []
+        rp, qp = start, 0
+        for op, l in cig:
+            if op == 0:
+                run_op, run = None, 0
+                for k in range(l):
+                    o = 7 if seq[qp + k] == refseq[rp + k] else 8
+                    if o == run_op:
+                        run += 1
+                    else:
+                        if run:
+                            out.append((run_op, run))
+                        run_op, run = o, 1
+                if run:
+                    out.append((run_op, run))
+                rp += l
+                qp += l
+            else:
+                out.append((op, l))
+                if op == 1:
+                    qp += l
+                elif op in (2, 3):
+                    rp += l
+        cig = out
+    if rng.random() < 0.5:
+        n = rng.randint(1, 12)
+        seq = "".join(rng.choice(BASES) for _ in range(n)) + seq
+        cig = [(4, n)] + cig
+    if rng.random() < 0.5:
+        n = rng.randint(1, 12)
+        seq = seq + "".join(rng.choice(BASES) for _ in range(n))
+        cig = cig + [(4, n)]
+    if rng.random() < 0.2:
+        cig = [(5, rng.randint(1, 30))] + cig
+    if rng.random() < 0.2:
+        cig = cig + [(5, rng.randint(1, 30))]
+    return start, seq, cig
+
+
 class Sim:
     """A simulated data set on disk plus its ground truth."""
 
@@ -215,7 +263,7 @@ def simulate(rng, tmp, p):
     for c in sim.chroms:
         L = p.get("chrom_len", 3000)
         refseq = random_reference(rng, L)
-        vs = random_variants(rng, refseq, p.get("n_var", 12), kinds, p.get("min_gap", 30), 40, p.get("allow_shiftable", True))
+        vs = random_variants(rng, refseq, p.get("n_var", 12), kinds, p.get("min_gap", 30), p.get("margin", 40), p.get("allow_shiftable", True))
         sim.ref[c] = refseq
         sim.variants[c] = vs
         nv = len(vs)
@@ -307,6 +355,13 @@ def simulate(rng, tmp, p):
                     continue
                 name = "f%06d" % rid
                 rid += 1
+                if p.get("nskip") and len(built) == 2 and rng.random() < p["nskip"] and built[1][0] > built[0][0] + _reflen(built[0][2]):
+                    # one spliced alignment instead of two mates: block1 N block2
+                    (x1, s1, c1), (x2, s2, c2) = built
+                    gap = x2 - (x1 + _reflen(c1))
+                    built = [(x1, s1 + s2, list(c1) + [(3, gap)] + list(c2))]
+                if p.get("decorate") and rng.random() < p["decorate"]:
+                    built = [decorate(rng, refseq, x, seq, cig, p) for (x, seq, cig) in built]
                 for k, (x, seq, cig) in enumerate(built):
                     if err > 0:
                         sl = list(seq)
@@ -372,8 +427,16 @@ def simulate(rng, tmp, p):
     d.meta.append('##FORMAT=<ID=GQ,Number=1,Type=Integer,Description="GQ">')
     if p.get("with_pl", False):
         d.meta.append('##FORMAT=<ID=PL,Number=G,Type=Integer,Description="PL">')
+    sim.hidden = {c: set() for c in sim.chroms}
+    if p.get("hidden_frac"):
+        for c in sim.chroms:
+            for i in range(len(sim.variants[c])):
+                if rng.random() < p["hidden_frac"]:
+                    sim.hidden[c].add(i)
     for c in sim.chroms:
         for i, v in enumerate(sim.variants[c]):
+            if i in sim.hidden[c]:
+                continue
             calls = []
             fmt = ["GT", "GQ"] + (["PL"] if p.get("with_pl", False) else [])
             for s in d.samples:
